@@ -253,8 +253,71 @@ func HarnessHTTPCancel() {
 }
 
 type CS struct {
-	Wait   func(ctx context.Context, tag int) (int, error)
-	Stream func(ctx context.Context, tag int) (<-chan int, error)
+	Wait       func(ctx context.Context, tag int) (int, error)
+	Stream     func(ctx context.Context, tag int) (<-chan int, error)
+	SlowStream func(ctx context.Context, tag int) (<-chan int, error)
+}
+
+// SlowStream takes its time to set the subscription up: it returns its channel only
+// when released, or gives up when its context is cancelled.
+func (h *H) SlowStream(ctx context.Context, tag int) (<-chan int, error) {
+	h.set(func() { h.ctxs[tag] = ctx; h.started[tag]++ })
+	select {
+	case <-ctx.Done():
+		h.set(func() { h.done[tag] = 2 })
+		return nil, ctx.Err()
+	case <-h.release[tag]:
+	}
+	out := make(chan int)
+	close(out)
+	return out, nil
+}
+
+// HarnessSubscribeCancelledInFlight: the context of a subscribing call is
+// cancelled while the call itself is still in flight (the handler has not yet
+// returned its channel): the handler's context is cancelled, and the caller
+// gets its call back.
+func HarnessSubscribeCancelledInFlight() {
+	h := newH()
+	for i := 0; i < 4; i++ {
+		h.release[i] = make(chan struct{})
+	}
+	srv := jsonrpc.NewServer()
+	srv.Register("H", h)
+	url, stop := verif.ServeWS(srv)
+	var c CS
+	closer, err := jsonrpc.NewMergeClient(context.Background(), url, "H", []interface{}{&c}, nil)
+	verif.Assert(err == nil, "client-created")
+	otherRet := 0
+	go func() { c.Wait(context.Background(), 0); otherRet++ }()
+	subCtx, cancelSub := context.WithCancel(context.Background())
+	subRet := 0
+	go func() {
+		ch, _ := c.SlowStream(subCtx, 3)
+		if ch != nil {
+			for range ch {
+			}
+		}
+		subRet++
+	}()
+	verif.Quiesce() // both handlers are running
+	var sc context.Context
+	h.set(func() { sc = h.ctxs[3] })
+	verif.Assert(sc != nil && sc.Err() == nil, "subscription-handler-context-live-before-cancel")
+	cancelSub()
+	verif.Quiesce()
+	verif.Assert(sc.Err() != nil, "cancelling-an-in-flight-subscribing-call-cancels-its-handler")
+	verif.Assert(subRet == 1, "cancelled-subscribing-call-returns")
+	var oc context.Context
+	h.set(func() { oc = h.ctxs[0] })
+	verif.Assert(oc != nil && oc.Err() == nil && otherRet == 0, "other-call-undisturbed")
+	close(h.release[0])
+	verif.Quiesce()
+	verif.Assert(otherRet == 1, "other-call-completes-normally")
+	closer()
+	stop()
+	verif.Quiesce()
+	verif.Reach("subscribe-cancelled-in-flight-done")
 }
 
 // HarnessSubscriptionCancel: real client and real server. A plain call is in
